@@ -67,7 +67,9 @@ Step(ev) ==
      /\ tmax' = Max2(tmax, ev.t) /\ UNCHANGED <<files, ack, run, pol, ts, gone, sfail, acur>> /\ Keep
   \/ /\ ev.a = "delete"
      /\ files' = [j \in DOMAIN files \ {ev.f} |-> files[j]]
-     /\ gone' = gone \cup (IF ev.f \in DOMAIN files THEN RangeS(FileRecover(files[ev.f])) ELSE {})
+     (* only what some requested threshold covers is excused: an entry stamped later than every requested threshold stays an *)
+     (* obligation of the always policy wherever the implementation has put it meanwhile                                     *)
+     /\ gone' = gone \cup (IF ev.f \in DOMAIN files THEN {w \in RangeS(FileRecover(files[ev.f])) : Stamp(w) <= tmax} ELSE {})
      /\ UNCHANGED <<ack, run, pol, ts, tmax, sfail, acur>> /\ Keep
      /\ IF ev.f = acur THEN Verdict(ev, "truncation removed the active file")
         ELSE IF ev.f \in DOMAIN files /\ FileMax(files[ev.f]) > tmax THEN Verdict(ev, "truncation removed an entry stamped later than every requested threshold")
